@@ -447,6 +447,30 @@ ADDED4 = {
 }
 
 
+ADDED5 = {
+    "C02": "Review round: QueueEventPlayer.play (QP1; defect 0cf83b9 repaired), Mode.start W0 / W1 (the triggering queue "
+           "event's QueuedEvent is never posted on; defect e769362 repaired).",
+    "C05": "Round 4b: BallDevice._setup_or_queue_eject_to_target / _source_device_balls_available / request_ball (RQ1-RQ3: "
+           "a request is served or stays queued, never dropped; bounded: 0..2 queued requests).",
+    "C06": "Review round: C11's late-player set re-checked (the turn of a player who is still being added; defect 6ae4dc1 "
+           "repaired).",
+    "C07": "Review round: _mode_stopped_callback M12 (no delay of the mode left pending; defect 0fe3d76 repaired).",
+    "C09": "Review round: Light.get_color_below GB1 (no longer assumed; defect 602acfe repaired; bounded: 3 layers, keys "
+           "modelled as integers).",
+    "C11": "Review round: ModeController._player_turn_start / _player_added / _ball_starting (PT0 / PT1; defect 6ae4dc1), "
+           "VP1 rewritten (defect 3aeb834), logic-block removal re-checked natively (defect 1c72f9d).",
+    "C13": "Review round: Timer.pause PA1 (defect 7360f73), Timer._setup_control_events TC1 (defect e6d20e2; bounded: 2 "
+           "entries), Mode._mode_stopped_callback M12 re-checked (defect 0fe3d76).",
+    "C16": "Review round: _eval_tuple TU1 (defect 73a224e; bounded: 2 elements), DeviceMonitor inherited attributes "
+           "(native history; defect 98fd186).",
+    "C17": "Review round: pause / resume / advance / step_back WS (a show waiting for its synchronised start keeps it; "
+           "defect c8db8af), first step time '0s' (native history; defect c48912c).",
+    "C18": "Review round: RM1 rewritten from the property (the block drops every timer of its own; defect 1c72f9d).",
+    "C20": "Round 4b: bounded native check of the pricing table builder (522 tier configurations). Known finding F-C20-a "
+           "(decimal prices truncated by float division; native history).",
+}
+
+
 def main():
     props = [json.loads(l) for l in open("properties.jsonl")]
     checks = []
@@ -462,6 +486,8 @@ def main():
                 c["text"] = c["text"] + " " + ADDED3[pid]
             if pid in ADDED4:
                 c["text"] = c["text"] + " " + ADDED4[pid]
+            if pid in ADDED5:
+                c["text"] = c["text"] + " " + ADDED5[pid]
             checks.append({
                 "property_id": pid,
                 "quick_cmd": "./check %s --tier quick" % pid,
